@@ -633,12 +633,30 @@ func checkFreshDecode(c *Check, rule string) {
 			c.Undecided(rule, fk[0]+"."+fk[1], "-", "function not found")
 			continue
 		}
+		// the receive call: in the loop itself, or in a helper of the package the loop calls once per round (a value
+		// allocated inside that helper is made anew by every call)
 		var recv ssa.CallInstruction
-		for _, ci := range callInstrs(fn) {
-			if n, _ := calleeOf(ci); strings.HasSuffix(n, "container.socket).RecvMsg") {
-				recv = ci
+		viaHelper := false
+		var find func(f *ssa.Function, depth int, loopOK bool)
+		find = func(f *ssa.Function, depth int, loopOK bool) {
+			for _, ci := range callInstrs(f) {
+				n, callee := calleeOf(ci)
+				if strings.HasSuffix(n, "container.socket).RecvMsg") {
+					if recv == nil {
+						recv, viaHelper = ci, depth > 0
+					}
+					continue
+				}
+				if depth < 2 && callee != nil && callee.Pkg == fn.Pkg && len(callee.Blocks) > 0 && callee != f {
+					// only helpers called from inside the loop run once per message
+					if depth == 0 && !inLoop(ci.Block()) {
+						continue
+					}
+					find(callee, depth+1, true)
+				}
 			}
 		}
+		find(fn, 0, false)
 		key := fk[0] + "." + strings.ReplaceAll(fk[1], ".", "·")
 		if recv == nil {
 			c.Fail(rule, key, p.Pos(fn.Pos()), "receive loop does not call the socket's RecvMsg")
@@ -649,7 +667,8 @@ func checkFreshDecode(c *Check, rule string) {
 			tgt = mi.X
 		}
 		a, isAlloc := tgt.(*ssa.Alloc)
-		c.Cond(isAlloc && inLoop(a.Block()) && inLoop(recv.Block()), rule, key, p.Pos(recv.Pos()), "every message is decoded into a freshly allocated value",
+		fresh := isAlloc && ((viaHelper && a.Parent() == recv.Parent()) || (!viaHelper && inLoop(a.Block()) && inLoop(recv.Block())))
+		c.Cond(fresh, rule, key, p.Pos(recv.Pos()), "every message is decoded into a freshly allocated value",
 			"messages are decoded into a value that lives across iterations: gob leaves fields absent from the wire untouched, so a request inherits fields (flags, mode, paths) of the previous one")
 	}
 	c.Expect(rule, 2)
